@@ -364,7 +364,7 @@ class SED(object):
         # If any apertures are smaller than the defined min, raise Exception
         # (an aperture that equals the smallest one up to rounding, e.g.
         # arcsec * 10**log10(d) versus arcsec * d, is not too small)
-        if np.any(apertures < sed_apertures.min() * (1. - 1.e-10)):
+        if np.any(apertures < float(sed_apertures.min()) * (1. - 1.e-10)):
             raise Exception("Aperture(s) requested too small")
 
         # If any apertures are larger than the defined max, reset to max
@@ -397,7 +397,7 @@ class SED(object):
 
         # If any apertures are smaller than the defined min, raise Exception
         # (equality up to rounding is accepted, see interpolate)
-        if np.any(apertures < sed_apertures.min() * (1. - 1.e-10)):
+        if np.any(apertures < float(sed_apertures.min()) * (1. - 1.e-10)):
             raise Exception("Aperture(s) requested too small")
 
         # Find wavelength order
